@@ -72,6 +72,7 @@ package rib
 //@   && h.refCounts.NextHop != nil && h.refCounts.NextHopGroup != nil && h.refCounts.NextHop != h.refCounts.NextHopGroup && tablesAllocated(h.r.Afts)
 //@   && (forall i: uint64 :: h.refCounts.NextHop[i] <= 18446744073709551615 && h.refCounts.NextHopGroup[i] <= 18446744073709551615
 //@       && 0 <= h.refCounts.NextHop[i] && 0 <= h.refCounts.NextHopGroup[i])
+//@   && (forall g in dom(h.r.Afts.NextHopGroup) :: h.r.Afts.NextHopGroup[g] != nil ==> groupWF(h.r.Afts.NextHopGroup[g]))
 //@ pred nilOrAllocated(x Int) = x == 0 || (0 < x && x < top)
 //@ pred tablesAllocated(A *aft.Afts) = nilOrAllocated(A.Ipv4Entry) && nilOrAllocated(A.Ipv6Entry) && nilOrAllocated(A.LabelEntry)
 //@   && nilOrAllocated(A.NextHopGroup) && nilOrAllocated(A.NextHop)
@@ -286,6 +287,11 @@ package rib
 //@ requires holderWF(r) && newRIB != nil && newRIB.Afts != nil
 //@ requires[cand] candOnly_nhg(newRIB.Afts, ID)
 //@ requires[separate] separateAfts(newRIB.Afts, r.r.Afts)
+//@ requires[cand-wf] groupWF(newRIB.Afts.NextHopGroup[ID])
+//@ assert at "return wasReplace, nil" [lemma-new-group-wf] groupWF(r.r.Afts.NextHopGroup[ID])
+//@ assert at "return wasReplace, nil" [lemma-others-kept] othersKept_nhg(r.r.Afts, ID)
+//@ assert at "return wasReplace, nil" [lemma-a] forall g in old(dom(r.r.Afts.NextHopGroup)) :: old(r.r.Afts.NextHopGroup[g]) != nil ==> groupWF(old(r.r.Afts.NextHopGroup[g]))
+//@ assert at "return wasReplace, nil" [lemma-old-groups-wf] forall g in dom(r.r.Afts.NextHopGroup) :: g != ID && r.r.Afts.NextHopGroup[g] != nil ==> groupWF(r.r.Afts.NextHopGroup[g])
 //@ ensures[ok] result1 == nil
 //@ ensures[implicit] result0 <==> ID in old(dom(r.r.Afts.NextHopGroup))
 //@ ensures[installed] ID in dom(newRIB.Afts.NextHopGroup) && ID in dom(r.r.Afts.NextHopGroup) && r.r.Afts.NextHopGroup[ID] != nil
@@ -347,7 +353,7 @@ package rib
 //@ ensures[mpls] result1 == nil && len(a.LabelEntry) == 1 && a.LabelEntry[0] != nil && len(a.Ipv4Entry) == 0 && len(a.Ipv6Entry) == 0 && len(a.NextHopGroup) == 0 && len(a.NextHop) == 0 ==> candOnly_mpls(result0.Afts, boxed(aft.UnionUint32, a.LabelEntry[0].GetLabelUint64()))
 //@   && fresh(result0.Afts.LabelEntry[boxed(aft.UnionUint32, a.LabelEntry[0].GetLabelUint64())]) && fromProto_mpls(result0.Afts.LabelEntry[boxed(aft.UnionUint32, a.LabelEntry[0].GetLabelUint64())], a.LabelEntry[0]) && a.LabelEntry[0].GetLabelUint64() < 4294967296 && istype(a.LabelEntry[0].Label, *aftpb.Afts_LabelEntryKey_LabelUint64)
 //@ ensures[nhg] result1 == nil && len(a.NextHopGroup) == 1 && a.NextHopGroup[0] != nil && len(a.Ipv4Entry) == 0 && len(a.Ipv6Entry) == 0 && len(a.LabelEntry) == 0 && len(a.NextHop) == 0 ==> candOnly_nhg(result0.Afts, a.NextHopGroup[0].GetId())
-//@   && fresh(result0.Afts.NextHopGroup[a.NextHopGroup[0].GetId()]) && fromProto_nhg(result0.Afts.NextHopGroup[a.NextHopGroup[0].GetId()], a.NextHopGroup[0])
+//@   && fresh(result0.Afts.NextHopGroup[a.NextHopGroup[0].GetId()]) && fromProto_nhg(result0.Afts.NextHopGroup[a.NextHopGroup[0].GetId()], a.NextHopGroup[0]) && a.NextHopGroup[0].GetNextHopGroup() != nil && groupWF(result0.Afts.NextHopGroup[a.NextHopGroup[0].GetId()])
 //@ ensures[nh] result1 == nil && len(a.NextHop) == 1 && a.NextHop[0] != nil && len(a.Ipv4Entry) == 0 && len(a.Ipv6Entry) == 0 && len(a.LabelEntry) == 0 && len(a.NextHopGroup) == 0 ==> candOnly_nh(result0.Afts, a.NextHop[0].GetIndex())
 //@   && fresh(result0.Afts.NextHop[a.NextHop[0].GetIndex()]) && fromProto_nh(result0.Afts.NextHop[a.NextHop[0].GetIndex()], a.NextHop[0])
 //@ assigns nothing
@@ -411,14 +417,15 @@ package rib
 //@ ensures[err-not-installed] result2 != nil ==> !result0
 //@ ensures[no-trace] !result0 ==> kept_nhg(r.r.Afts) && hookCount == old(hookCount)
 //@ ensures[installed] result0 ==> e != nil && e.GetId() in dom(r.r.Afts.NextHopGroup) && r.r.Afts.NextHopGroup[e.GetId()] != nil && fresh(r.r.Afts.NextHopGroup[e.GetId()]) && othersKept_nhg(r.r.Afts, e.GetId())
-//@ ensures[attrs] result0 ==> fromProto_nhg(r.r.Afts.NextHopGroup[e.GetId()], e)
+//@ ensures[attrs] result0 ==> fromProto_nhg(r.r.Afts.NextHopGroup[e.GetId()], e) && e.GetNextHopGroup() != nil
 //@ ensures[orig] result0 ==> result1 == old(r.r.Afts.NextHopGroup[e.GetId()])
 //@ ensures[explicit-replace] explicitReplace && e != nil && !(e.GetId() in old(dom(r.r.Afts.NextHopGroup))) ==> !result0 && result2 != nil
 //@ ensures[hook] result0 ==> hookCount == old(hookCount) + ite(old(r.postChangeHook) != nil, 1, 0)
 //@ ensures[wf] holderWF(r)
 //@ loop 1 invariant (forall j in visited :: j == e.GetId()) && hookCount == old(hookCount) + ite(e.GetId() in visited, 1, 0)
 //@ loop 1 invariant e != nil && holderWF(r) && e.GetId() in dom(r.r.Afts.NextHopGroup) && r.r.Afts.NextHopGroup[e.GetId()] != nil && fresh(r.r.Afts.NextHopGroup[e.GetId()]) && othersKept_nhg(r.r.Afts, e.GetId())
-//@ loop 1 invariant fromProto_nhg(r.r.Afts.NextHopGroup[e.GetId()], e) && candOnly_nhg(nr.Afts, e.GetId()) && nr != nil && nr.Afts != nil && r.postChangeHook != nil
+//@ loop 1 invariant e.GetNextHopGroup() != nil && fromProto_nhg(r.r.Afts.NextHopGroup[e.GetId()], e) && candOnly_nhg(nr.Afts, e.GetId()) && nr != nil && nr.Afts != nil && r.postChangeHook != nil
+//@ loop 1 invariant groupWF(nr.Afts.NextHopGroup[e.GetId()])
 //@ assigns r.r.Afts.NextHopGroup, contents(r.r.Afts.NextHopGroup), hookCount
 //@ props C01 C02 C16 C12:safety
 
@@ -686,11 +693,9 @@ package rib
 // inNew: the group message lists next-hop index i (at least once).
 //@ pred inNew(g *aftpb.Afts_NextHopGroup, i uint64) = exists j in 0..len(g.NextHop) :: g.NextHop[j].GetIndex() == i
 //@ pred inNewUpTo(g *aftpb.Afts_NextHopGroup, n Int, i uint64) = exists j in 0..n :: g.NextHop[j].GetIndex() == i
-//@ pred groupWF(g *aft.Afts_NextHopGroup) = forall k in dom(g.NextHop) :: g.NextHop[k] != nil && g.NextHop[k].GetIndex() == k
 
 //@ unit RIB.handleNHGReferences
 //@ requires holderWF(niRIB) && new != nil && (original != nil ==> groupWF(original))
-//@ requires[wire-valid] forall j in 0..len(new.NextHop) :: new.NextHop[j] != nil
 //@ ensures[set-semantics] forall i: uint64 :: nhCount(niRIB, i) == ite(original != nil && i in dom(original.NextHop),
 //@      dec64(wrap64(old(nhCount(niRIB, i)) + ite(inNew(new, i), 1, 0))), wrap64(old(nhCount(niRIB, i)) + ite(inNew(new, i), 1, 0)))
 //@ ensures[wf] holderWF(niRIB)
@@ -705,7 +710,7 @@ package rib
 
 
 // ---- resolved-entry hook and RIB copies ----
-//@ guarded_by RIBHolder.mu: postChangeHook
+
 
 //@ unit RIB.copyRIBs
 //@ requires r != nil && (forall k in dom(r.niRIB) :: r.niRIB[k] != nil && r.niRIB[k].r != nil)
@@ -727,4 +732,54 @@ package rib
 //@ ensures[called-iff-set] spawned == old(spawned) + ite(r.resolvedEntryHook != nil, 1, 0)
 //@ assigns spawned
 //@ props C16 C12:safety
+
+
+// ---- operations on the whole RIB (C01, C02, C06) ----
+//@ pred opWF(op *spb.AFTOperation) = op != nil && oneofOK(op.Entry) && (op.GetMpls() != nil ==> oneofOK(op.GetMpls().Label))
+//@ pred pendingWF(r *RIB) = r.pendingEntries != nil && (forall k in dom(r.pendingEntries) :: r.pendingEntries[k] != nil
+//@   && opWF(r.pendingEntries[k].op) && r.pendingEntries[k].op.GetId() == k)
+//@   && (r.disableForwardReferences ==> dom(r.pendingEntries) == emptyset(uint64))
+//@ pred newIDsNotHeld(r *RIB, rs []*OpResult, from Int) = forall i in from..len(rs) :: !(rs[i].ID in dom(r.pendingEntries))
+// opInstalled: the entry named by op is in the tables of h with the key and reference fields of op's payload.
+//@ pred opInstalled(h *RIBHolder, op *spb.AFTOperation) = (istype(op.Entry, *spb.AFTOperation_Ipv4) ==> op.GetIpv4().GetPrefix() in dom(h.r.Afts.Ipv4Entry) && fromProto_v4(h.r.Afts.Ipv4Entry[op.GetIpv4().GetPrefix()], op.GetIpv4())) && (istype(op.Entry, *spb.AFTOperation_Ipv6) ==> op.GetIpv6().GetPrefix() in dom(h.r.Afts.Ipv6Entry) && fromProto_v6(h.r.Afts.Ipv6Entry[op.GetIpv6().GetPrefix()], op.GetIpv6())) && (istype(op.Entry, *spb.AFTOperation_Mpls) ==> boxed(aft.UnionUint32, op.GetMpls().GetLabelUint64()) in dom(h.r.Afts.LabelEntry) && fromProto_mpls(h.r.Afts.LabelEntry[boxed(aft.UnionUint32, op.GetMpls().GetLabelUint64())], op.GetMpls())) && (istype(op.Entry, *spb.AFTOperation_NextHopGroup) ==> op.GetNextHopGroup().GetId() in dom(h.r.Afts.NextHopGroup) && fromProto_nhg(h.r.Afts.NextHopGroup[op.GetNextHopGroup().GetId()], op.GetNextHopGroup())) && (istype(op.Entry, *spb.AFTOperation_NextHop) ==> op.GetNextHop().GetIndex() in dom(h.r.Afts.NextHop) && fromProto_nh(h.r.Afts.NextHop[op.GetNextHop().GetIndex()], op.GetNextHop()))
+// opRemoved: the key named by op is absent from the tables of h.
+//@ pred opRemoved(h *RIBHolder, op *spb.AFTOperation) = (istype(op.Entry, *spb.AFTOperation_Ipv4) ==> !(op.GetIpv4().GetPrefix() in dom(h.r.Afts.Ipv4Entry))) && (istype(op.Entry, *spb.AFTOperation_Ipv6) ==> !(op.GetIpv6().GetPrefix() in dom(h.r.Afts.Ipv6Entry))) && (istype(op.Entry, *spb.AFTOperation_Mpls) ==> op.GetMpls().GetLabelUint64() < 4294967296 && !(boxed(aft.UnionUint32, op.GetMpls().GetLabelUint64()) in dom(h.r.Afts.LabelEntry))) && (istype(op.Entry, *spb.AFTOperation_NextHopGroup) ==> !(op.GetNextHopGroup().GetId() in dom(h.r.Afts.NextHopGroup))) && (istype(op.Entry, *spb.AFTOperation_NextHop) ==> !(op.GetNextHop().GetIndex() in dom(h.r.Afts.NextHop)))
+//@ pred keptAll(A *aft.Afts) = kept_v4(A) && kept_v6(A) && kept_mpls(A) && kept_nhg(A) && kept_nh(A)
+//@ pred stackNotHeld(r *RIB, st map[uint64]bool) = forall k in dom(st) :: st[k] ==> !(k in dom(r.pendingEntries))
+//@ pred newIDsKnown(rs []*OpResult, from Int, id uint64, was IntSet) = forall i in from..len(rs) :: rs[i].ID == id || rs[i].ID in was
+//@ pred newIDsStacked(rs []*OpResult, from Int, st map[uint64]bool) = forall i in from..len(rs) :: st[rs[i].ID]
+//@ pred prefixKept(now []*OpResult, before []*OpResult) = len(now) >= len(before) && (forall i in 0..len(before) :: now[i] == before[i])
+//@ pred ribQuiet(r *RIB) = nolocks(RIBHolder.mu) && held(r.nrMu) == 0 && held(r.pendMu) == 0 && nolocks(niRefCounter.mu)
+
+//@ unit RIB.addEntryInternal
+//@ requires holdersWF(r) && pendingWF(r) && opWF(op) && ribQuiet(r) && unixTS != nil
+//@ requires oks != nil && fails != nil && installStack != nil && resultsWF(*oks) && resultsWF(*fails) && stackNotHeld(r, installStack)
+//@ ensures[prefix] prefixKept(*oks, old(*oks)) && prefixKept(*fails, old(*fails))
+//@ ensures[wf-results] resultsWF(*oks) && resultsWF(*fails)
+//@ ensures[wf-holders] holdersWF(r)
+//@ ensures[wf-pending] pendingWF(r)
+//@ ensures[wf-stack] stackNotHeld(r, installStack)
+//@ ensures[fatal-unknown-ni] !(ni in old(dom(r.niRIB))) && !old(installStack[op.GetId()]) ==> result0 != nil
+//@ ensures[ids-known] newIDsKnown(*oks, old(len(*oks)), op.GetId(), old(dom(r.pendingEntries))) && newIDsKnown(*fails, old(len(*fails)), op.GetId(), old(dom(r.pendingEntries)))
+//@ ensures[verdict-stacked] r.disableForwardReferences || (newIDsStacked(*oks, old(len(*oks)), installStack) && newIDsStacked(*fails, old(len(*fails)), installStack))
+//@ ensures[verdict-final] newIDsNotHeld(r, *oks, old(len(*oks))) && newIDsNotHeld(r, *fails, old(len(*fails)))
+//@ ensures[stack-monotone] forall k in old(dom(installStack)) :: old(installStack[k]) ==> installStack[k]
+//@ ensures[held-shrinks] forall k in dom(r.pendingEntries) :: k in old(dom(r.pendingEntries)) || k == op.GetId()
+//@ ensures[answered-or-held] result0 == nil && !old(installStack[op.GetId()]) ==>
+//@    (exists i in old(len(*oks))..len(*oks) :: (*oks)[i].ID == op.GetId()) || (exists i in old(len(*fails))..len(*fails) :: (*fails)[i].ID == op.GetId())
+//@    || op.GetId() in dom(r.pendingEntries)
+//@ assert at "*oks = append(*oks" [ack-installed] opInstalled(niR, op) && installed
+//@ assert at "Error: opErr.Error()" [failed-no-trace] keptAll(niR.r.Afts)
+//@ assert at "has unresolved dependencies" [failed-no-trace] keptAll(niR.r.Afts) && r.disableForwardReferences
+//@ assert at "r.addPending(op.GetId()" [held-no-trace] keptAll(niR.r.Afts) && !r.disableForwardReferences
+//@ loop 1 at "range r.getPending()" invariant prefixKept(*oks, old(*oks)) && prefixKept(*fails, old(*fails))
+//@ loop 1 invariant resultsWF(*oks) && resultsWF(*fails) && holdersWF(r) && pendingWF(r) && stackNotHeld(r, installStack) && ribQuiet(r)
+//@ loop 1 invariant newIDsKnown(*oks, old(len(*oks)), op.GetId(), old(dom(r.pendingEntries))) && newIDsKnown(*fails, old(len(*fails)), op.GetId(), old(dom(r.pendingEntries)))
+//@ loop 1 invariant r.disableForwardReferences || (newIDsStacked(*oks, old(len(*oks)), installStack) && newIDsStacked(*fails, old(len(*fails)), installStack))
+//@ loop 1 invariant (forall k in old(dom(installStack)) :: old(installStack[k]) ==> installStack[k]) && installStack[op.GetId()]
+//@ loop 1 invariant forall k in dom(r.pendingEntries) :: k in old(dom(r.pendingEntries))
+//@ loop 1 invariant (exists i in old(len(*oks))..len(*oks) :: (*oks)[i].ID == op.GetId()) && oks != nil && fails != nil && installStack != nil && opWF(op)
+//@ loop 1 invariant forall j in 0..len(ranged) :: ranged[j] != nil && opWF(ranged[j].op) && ranged[j].op.GetId() in old(dom(r.pendingEntries))
+//@ assigns ribState, *oks, *fails, contents(installStack), spawned, hookCount
+//@ props C01 C02 C06 C12:safety
 
